@@ -128,6 +128,10 @@ func EncodeWithColor(content string, interleaved bool, color barcode.ColorScheme
 		}
 	}
 
+	if lastRune != nil {
+		return nil, errors.New("can only encode even number of digits in interleaved mode")
+	}
+
 	resBits.AddBit(mode.end...)
 
 	if interleaved {
